@@ -86,6 +86,26 @@ CLAIMED = {
    note="Partial: syntactic field accesses with hand-fixed thread classes and happens-before edges; the Go memory model, aliasing through handler arguments and unexplored interleavings are outside the theorem. Client is documented as not safe for concurrent use and is excluded.",
    technique="Coq proof by enumeration of a regenerated lockset/happens-before table + Go race detector runs",
    design="3/C12"),
+ "C01": dict(
+   text="Machine-checked proof, in progress towards the full message theorem: C01_primitive_roundtrip - every primitive value in range (32/64-bit integers, enumerations, booleans, byte and text strings of ANY length, whole-second date-times, intervals of 0..2^32-1 seconds) decodes from a decoder positioned at the item (tag peeked or not) to itself, consuming exactly the item, whatever follows. PARTIAL: the composite theorem (structures, optional/required fields, sequences, dynamic payloads; CodecRT.v carries the statement's definitions wf / fl_ok) is not yet closed; until then the message-level round trip rests on the tie: for every struct type and every dispatch entry (paired from the specification's tables, not the code's), well-formed values with boundary primitives are encoded, decoded and re-encoded by the implementation and compared with the extracted model's normalised value and bytes.",
+   note="Trusted: Coq kernel; Codec.v model tied by correspondence; normalisation computed by the model. The model's own round trip is checked per case by the driver ('model-roundtrip-fails' would flag a modelling error).",
+   technique="Coq proof (primitive level so far) + implementation/extracted-model round-trip comparison",
+   design="3/C01"),
+ "C04": dict(
+   text="Machine-checked proof, partial: the decoder model decides every input (C04_decides) and accepts every canonical primitive item with the value it denotes (C04_primitive_complete). The soundness / completeness theorems against the relational specification of DESIGN.md are not yet closed; until then accept/reject and the reported value are decided by differential comparison with the extracted decoder model - valid encodings, 14 mutation kinds on every header field (boundary lengths incl. 2^31, 2^32-1, 0xfffffff8..ff), truncation at every offset, deletion / duplication / swap / splice with fixed-up lengths, non-zero padding, spelled-out zero optionals (independent reflection-driven serialiser), random bytes - and 'a truncation of a valid message is accepted' is checked directly.",
+   note="Trusted: Coq kernel; Codec.v model of decode.go tied by correspondence in both directions (implementation vs model on the same bytes). Until the soundness theorem is closed the model plays the role of the specification: a defect shared by model and code would go unnoticed.",
+   technique="Coq proof (partial) + differential decoding against the extracted model on mutated and non-canonical encodings",
+   design="3/C04"),
+ "C05": dict(
+   text="Machine-checked proof about the decoder model, partial: a value of declared length n is read only if n bytes are really there and then holds exactly n (C05_value_within_input); the region handed to a nested decoder is never larger than what is there, whatever was declared (C05_region_within_input). The linear bound on real allocation (700 bytes per input byte + 64 KiB) is a runtime fact and is measured: every item header of generated messages - strings, byte strings, structures, fixed-size items and skipped items under Message Extension - gets its length replaced by 2^16, 2^20, 2^24, 2^31, 2^32-1, 0xfffffff8 (and truncations), each Decode measured with runtime.MemStats.TotalAlloc under a 3 GiB limit.",
+   note="Partial: the Go heap / GC / reflect allocations are measured, not modelled; the allocation-ledger theorem of DESIGN.md is not yet written.",
+   technique="Coq lemmas on the reader model + measured allocation with planted lengths at every position",
+   design="3/C05"),
+ "C06": dict(
+   text="Machine-checked proof, partial: a decoded item always moves the stream forward (C06_forward_progress) and a primitive item is consumed exactly, leaving what follows untouched and no look-ahead (C06_item_exact_consumption). The message-level theorem (dec_stream of a concatenation returns the messages then EOF) follows from the round-trip theorem under construction in CodecRT.v. Tie: random sequences of 1-4 valid messages (and damaged tails) through ONE Decoder: compared with the model's stream result; consumed bytes per message on the unbuffered path; every two-way split of the stream, one-byte, random-chunk, data-with-EOF, empty-read and 16-byte-bufio deliveries must give the same sequence.",
+   note="Trusted: Coq kernel; Codec.v model tied by correspondence; bufio / LimitReader / ReadFull are exercised, not modelled (the chunked-reader theorem of DESIGN.md is not yet written).",
+   technique="Coq proof (item level so far) + stream decoding under exhaustive two-way fragmentation",
+   design="3/C06"),
 }
 
 m = {
